@@ -53,6 +53,10 @@ def run(ctx):
         'default argument is mutated (a second time point, an orificing '
         'iteration or a serial run would start from what the previous one '
         'left behind)']
+    ctx.decided.append(
+        'R5 a function that changes the process working directory changes '
+        'back to the saved one on every path to a normal return (CFG '
+        'must-pass-through)')
     ctx.not_decided += ['bitwise identity of floating-point results']
     res = Resolver(ctx.repo)
     keys, sections = S.parse_template(ctx.repo.template_text)
@@ -66,6 +70,7 @@ def run(ctx):
     r2(ctx)
     r3(ctx)
     r4(ctx)
+    r5(ctx)
     ctx.min_instances('C16.R4', 40)
     ctx.min_instances('C16.R1', 60)
     ctx.min_instances('C16.R2', 4)
@@ -894,6 +899,114 @@ def _global_alias(v, mutable_globals, local):
             root.id not in local:
         return root.id
     return None
+
+
+R5_POSITIVE = """
+import os
+def run(d, reuse):
+    cwd = os.getcwd()
+    if d != '':
+        os.chdir(d)
+    if reuse:
+        return load(d)
+    work()
+    os.chdir(cwd)
+    return load(d)
+def fine(d):
+    cwd = os.getcwd()
+    os.chdir(d)
+    try:
+        work()
+    finally:
+        os.chdir(cwd)
+    return load(d)
+"""
+
+
+def chdir_leaks(fi):
+    """[(chdir node, exit description)]: the function changes the process
+    working directory away from the saved one and some path to a normal exit
+    does not change back."""
+    saved = set()
+    for st in walk_no_nested(fi.node):
+        if isinstance(st, ast.Assign) and isinstance(st.value, ast.Call) and \
+                (call_name(st.value) or '') == 'os.getcwd':
+            saved |= {t.id for t in st.targets if isinstance(t, ast.Name)}
+    def is_chdir(n):
+        return isinstance(n, ast.Call) and (call_name(n) or '') == 'os.chdir'
+
+    def restores(c):
+        return c.args and isinstance(c.args[0], ast.Name) and \
+            c.args[0].id in saved
+    try:
+        g = cfg_of(fi)
+    except AnalysisError:
+        # try/finally is not modelled by the CFG: accept exactly the idiom
+        # "change inside / just before a try whose finally restores"
+        fin = [t for t in walk_no_nested(fi.node) if isinstance(t, ast.Try)
+               and any(is_chdir(c) and restores(c) for b in t.finalbody
+                       for c in ast.walk(b))]
+        aw = [c for c in walk_no_nested(fi.node) if is_chdir(c)
+              and not restores(c)]
+        if aw and len(fin) == 1 and all(
+                c.lineno <= fin[0].body[-1].end_lineno for c in aw) and not \
+                any(isinstance(r, ast.Return) and r.lineno < fin[0].lineno
+                    and any(c.lineno < r.lineno for c in aw)
+                    for r in walk_no_nested(fi.node)):
+            return [], len(aw)
+        raise
+    nodes = g.find(is_chdir)
+    away, back = [], []
+    for nd in nodes:
+        calls = [c for c in ast.walk(nd.stmt) if is_chdir(c)] \
+            if getattr(nd, 'stmt', None) is not None else []
+        for c in calls:
+            if c.args and isinstance(c.args[0], ast.Name) and \
+                    c.args[0].id in saved:
+                back.append(nd)
+            else:
+                away.append(nd)
+    out = []
+    for nd in away:
+        if not back or not g.must_pass(nd, set(back)):
+            out.append((nd, len(back)))
+    return out, len(away)
+
+
+def r5(ctx):
+    """R5 the process working directory is restored on every path."""
+    from ..core import Module
+    n = 0
+    for fi in ctx.repo.all_funcs():
+        if fi.mod.name.startswith(('dassh.plot', 'dassh.py4c')):
+            continue
+        leaks, k = chdir_leaks(fi)
+        n += k
+        for nd, nb in leaks:
+            ctx.violation(
+                'C16.R5', fi, nd.stmt,
+                '%s changes the working directory of the process and there is '
+                'a path to a normal return that does not change back to the '
+                'saved one (%d restoring call(s) in the function): the next '
+                'model construction in this process (next time point, '
+                'orificing iteration, re-run) resolves every relative path '
+                'against the wrong directory' % (fi.qual, nb),
+                key='%s | working directory not restored' % fi.full)
+        if k and not leaks:
+            ctx.ok('C16.R5', fi, None, '%d chdir call(s) away from the saved '
+                   'directory, each followed by the restoring call on every '
+                   'path to a return' % k)
+    pm = Module('dassh._positive', '<positive>', 'dassh/_positive.py',
+                R5_POSITIVE)
+    l1, _ = chdir_leaks(pm.funcs['run'])
+    l2, _ = chdir_leaks(pm.funcs['fine'])
+    if len(l1) != 1 or l2:
+        raise AnalysisError('C16.R5 positive example: %d / %d'
+                            % (len(l1), len(l2)))
+    ctx.ok('C16.R5', 'synthetic positive example', None, 'detected')
+    if n < 1:
+        raise AnalysisError('C16.R5: no chdir call found in the package '
+                            '(calc_power_VARIANT changed shape)')
 
 
 def r4(ctx):
